@@ -51,6 +51,9 @@ HARD_TIMEOUT = 60
 # string (runtime.add_generated_python: `v._root = v._root + text`), which is quadratic over a
 # long run with 400-digit literals; the switch only disables that debugging aid.
 WORKER_ENV = {"BASILISP_EMIT_GENERATED_PYTHON": "false"}
+# one interpreter: a case costs ~1.2 ms (four small compilations), the 12 s+ bootstrap of every
+# further worker costs more than it saves and parallel bootstraps slow each other down
+NWORKERS = 1
 
 # ---- universe ---------------------------------------------------------------------------
 I = lambda v: {"t": "int", "v": v}
